@@ -57,6 +57,10 @@ class Disk:
         # transient I/O error: the n-th tracked directory listing of the operation raises OSError(EMFILE)
         self.listings = 0
         self.ioerr_at: typing.Optional[int] = None
+        # transient read error: opening the n-th tracked file for reading (of those whose name matches) raises EIO
+        self.readerr_at: typing.Optional[int] = None
+        self.readerr_match: tuple = ()
+        self.opens = 0
         # directory entries come back in an order the file system picks (hash order on ext4, creation order on
         # tmpfs): here it is a seeded permutation, a function of (seed, listing number of the operation, path)
         self.order_seed: typing.Optional[int] = None
@@ -80,6 +84,9 @@ class Disk:
         self.reads = 0
         self.listings = 0
         self.ioerr_at = crash.get('ioerr') if crash else None
+        self.readerr_at = crash.get('read_error') if crash else None
+        self.readerr_match = tuple(crash.get('read_match', ())) if crash else ()
+        self.opens = 0
         if crash and 'at' not in crash:
             crash = None
         mutation = bool(pause and pause.get('on') == 'mutation')
@@ -131,6 +138,14 @@ class Disk:
         """A tracked read is about to be opened (scheduling point between two processes / threads)."""
         if self.on_point:
             self.on_point()
+        if self.readerr_at is not None and self.enabled:
+            name = os.fspath(path)
+            if not self.readerr_match or name.endswith(self.readerr_match):
+                self.opens += 1
+                if self.opens == self.readerr_at:
+                    self.readerr_at = None
+                    self.log.append([self.n, 'io-error-in-read', self.rel(path), None])
+                    raise OSError(5, 'injected: I/O error', name)
         if self.pause_at is None:
             return
         name = os.fspath(path)
@@ -202,7 +217,7 @@ def install(disk: Disk) -> None:
 
     def sim_open(file, mode='r', buffering=-1, encoding=None, errors=None, newline=None, closefd=True, opener=None):
         writing = any(c in mode for c in 'wax+')
-        if not writing and (disk.pause_at is not None or disk.on_point) and disk.tracked(file):
+        if not writing and (disk.pause_at is not None or disk.on_point or disk.readerr_at is not None) and disk.tracked(file):
             disk.read_point(file)
         if not writing or not disk.tracked(file):
             return REAL['open'](file, mode, buffering, encoding, errors, newline, closefd, opener)
